@@ -25,6 +25,7 @@ theorem skeleton_resetChannel : Gen.ClientSkel.resetChannel = Decl.resetChannel 
 theorem skeleton_handleWrite : Gen.ClientSkel.handleWrite = Decl.handleWrite := by decide
 theorem skeleton_handleError : Gen.ClientSkel.handleError = Decl.handleError := by decide
 theorem skeleton_retry : Gen.ClientSkel.retry = Decl.retry := by decide
+theorem skeleton_cancelRetryTimer : Gen.ClientSkel.cancelRetryTimer = Decl.cancelRetryTimer := by decide
 theorem skeleton_detailRemoveConnection : Gen.ClientSkel.detailRemoveConnection = Decl.detailRemoveConnection := by decide
 theorem skeleton_detailRemoveConnector : Gen.ClientSkel.detailRemoveConnector = Decl.detailRemoveConnector := by decide
 theorem skeleton_dtor : Gen.ClientSkel.dtor = Decl.dtor := by decide
@@ -49,6 +50,7 @@ theorem skeletons_agree :
     Gen.ClientSkel.handleWrite = Decl.handleWrite ∧
     Gen.ClientSkel.handleError = Decl.handleError ∧
     Gen.ClientSkel.retry = Decl.retry ∧
+    Gen.ClientSkel.cancelRetryTimer = Decl.cancelRetryTimer ∧
     Gen.ClientSkel.detailRemoveConnection = Decl.detailRemoveConnection ∧
     Gen.ClientSkel.detailRemoveConnector = Decl.detailRemoveConnector ∧
     Gen.ClientSkel.dtor = Decl.dtor ∧
@@ -59,7 +61,7 @@ theorem skeletons_agree :
     Gen.ClientSkel.removeConnection = Decl.removeConnection :=
   ⟨skeleton_start, skeleton_startCycleInLoop, skeleton_startInLoop, skeleton_stop, skeleton_stopInLoop,
    skeleton_connect, skeleton_restart, skeleton_connecting, skeleton_removeAndResetChannel, skeleton_resetChannel,
-   skeleton_handleWrite, skeleton_handleError, skeleton_retry, skeleton_detailRemoveConnection,
+   skeleton_handleWrite, skeleton_handleError, skeleton_retry, skeleton_cancelRetryTimer, skeleton_detailRemoveConnection,
    skeleton_detailRemoveConnector, skeleton_dtor, skeleton_clientConnect, skeleton_clientDisconnect,
    skeleton_clientStop, skeleton_newConnection, skeleton_removeConnection⟩
 
